@@ -1,7 +1,7 @@
 #!/bin/bash
 # usage: tools/import_seed.sh C01 a <short-name>   -- copies /tmp/seed-C01-out/{a.diff,demo_a.py,meta_a.json} to seeded/C01-<name>/
 id=$1; x=$2; name=$3
-src=${SEED_SRC:-/tmp/seed2-$id-out}
+src=${SEED_SRC:-/tmp/seed3-$id-out}
 dst=/verif/seeded/$id-$name
 mkdir -p $dst
 cp $src/$x.diff $dst/patch.diff && cp $src/demo_$x.py $dst/demo.py && cp $src/meta_$x.json $dst/meta.json && echo imported $dst
